@@ -72,6 +72,14 @@ func (m c05Meth) String() string         { return "meth" }
 func (m c05Meth) NilResult() interface{} { return nil }
 func (m c05Meth) Nothing()               {}
 
+type c05ErrVal struct{ msg string }
+
+func (e c05ErrVal) Error() string { return e.msg }
+
+type c05HasNilStringer struct {
+	T *time.Time
+	M *c05Meth
+}
 type c05Str string
 type c05IntSlice []int
 type c05StrMap map[string]string
@@ -142,6 +150,8 @@ func c05Values() []namedVal {
 		{"meth", c05Meth{V: 9}}, {"ptr-meth", &c05Meth{V: 8}}, {"ptr-int", pone}, {"ptr-str", &str}, {"ptr-ptr", &pone},
 		{"time", time.Unix(1700000000, 0).UTC()}, {"zero-time", time.Time{}}, {"duration", 90 * time.Second},
 		{"list-big-nested", c05BigList(true)}, {"list-big", c05BigList(false)}, {"ints-big", c05BigInts()}, {"lists-big", c05BigLists()},
+		{"nil-time-ptr", (*time.Time)(nil)}, {"nil-stringer-ptr", (*c05Meth)(nil)}, {"nil-err-ptr", (*c05ErrVal)(nil)}, {"map-nan-key", map[float64]string{math.NaN(): "x", 1.5: "y"}}, {"map-iface-nan", map[interface{}]interface{}{math.NaN(): 1}},
+		{"stringer-nil-field", c05HasNilStringer{}}, {"list-nil-stringers", []interface{}{(*time.Time)(nil), (*c05Meth)(nil)}},
 		{"chan", ch}, {"func", func() int { return 1 }}, {"deep", deep}, {"err", fmt.Errorf("an error value")}, {"struct-empty", struct{}{}},
 	}
 }
@@ -528,6 +538,35 @@ func (p *c05) Run(rec *core.Recorder, seed uint64, idx int, tier string) {
 	if idx%6 == 0 {
 		p.blob(rec, r, idx/6)
 		return
+	}
+	if idx%9 == 4 {
+		// mutation of an entry of the independently written corpus (or, one time in four, the entry as it is)
+		if we, ok := wildPick(r); ok {
+			srcs := we.Srcs()
+			names := sortedKeys(srcs)
+			src := srcs[we.Render]
+			if !r.P(1, 4) {
+				src = capDigits(c05Mutate(r, src, srcs[names[r.Intn(len(names))]]))
+			}
+			if selfRecursive(src) || strings.Contains(src, "'"+we.Render+"'") || strings.Contains(src, "\""+we.Render+"\"") {
+				rec.Count("skipped-as-recursive", 1)
+				return
+			}
+			cs := map[string]any{"source": src, "corpus_entry": we.ID}
+			rec.Eval("mutation", src, true)
+			rec.Count("wild-mutations", 1)
+			delete(srcs, we.Render)
+			e := c05NewEngine(srcs)
+			ctx := we.Ctx(nil)
+			for k, v := range c05Ctx() {
+				if _, ok := ctx[k]; !ok {
+					ctx[k] = v
+				}
+			}
+			c05Exercise(rec, "mutation", e, src, ctx, cs)
+			c05CanaryCheck(rec, e, "mutated corpus entry", cs)
+			return
+		}
 	}
 	// mutation of a generated program
 	ts := GenTSet(r.Fork(), "m")
